@@ -470,6 +470,19 @@ macro_rules! ecdsa_impl {
                 {
                     let mut us: Vec<Vec<u8>> = crate::group::endo_boundary_scalars::<Point>(rng, if n_adv > 40 { 120 } else { 30 });
                     for v in [1u32, 2, 3] { us.push(be32(&BigUint::from(v)).into_iter().rev().collect()); us.push(be32(&(&n - v)).into_iter().rev().collect()); }
+                    // fraction-shaped multipliers u = c0/c1 (the verification splits u that way): halves with zero low limbs,
+                    // at the top of the half-width range, either sign
+                    {
+                        let inv = |x: &BigUint| x.modpow(&(&n - 2u32), &n);
+                        let r64 = |rng: &mut Rng| BigUint::from(rng.u64() | 1);
+                        let c0s: Vec<BigUint> = vec![(&one << 127) - 1u32, r64(rng) << 64, (r64(rng) << 64) << 32, (&one << 126) + (&one << 122) + r64(rng),
+                                                     (&one << 127) + (&one << 123) + r64(rng), &one << 96, (&one << 128) - (&one << 32)];
+                        for (i, c0) in c0s.iter().enumerate() {
+                            let c1 = match i % 3 { 0 => BigUint::from(3u32), 1 => r64(rng), _ => (r64(rng) << 64) | one.clone() };
+                            let u = ((c0 % &n) * inv(&(&c1 % &n))) % &n;
+                            for uu in [u.clone(), (&n - &u) % &n, inv(&u)] { us.push(be32(&uu).into_iter().rev().collect()); }
+                        }
+                    }
                     for ub in us.iter() {
                         let u = Scalar::decode_reduce(ub);
                         if u.iszero() != 0 { continue; }
